@@ -12,6 +12,15 @@ Oracle (implementation only): dense(e.T) == dense(e).T with both matrices obtain
 own action on basis vectors, <e x, y> == <x, e.T y> on the probe, e.T.T acts as e, structures swapped.
 Expressions containing the iterative-solver InverseOperator are excluded from `.T` (unsupported by the
 library), as in harness/reduce_check.py; for them only the skeleton/structures of `.T` are compared.
+
+Two streams close blind spots found by seeded changes (see `cases`, `dtype_cases`):
+* shortcut-sensitive chains: operands on which an algebraic shortcut of transpose() would be WRONG - all-symmetric
+  chains that do not commute (band Toeplitz with K >= 2, diagonals with distinct entries, user @symmetric classes with
+  a non-diagonal matrix, also next to the half-wave plate on Stokes pytrees) in every context, X @ X, palindromes
+  X @ Y @ X, sums / blocks mixing tagged-symmetric and other operands;
+* dtype stream (implementation-side only: the model is over the rationals): the same classes with complex64,
+  complex128 and float64 (x64) parameters and structures, Gaussian-integer values with non-zero imaginary parts; the
+  property is the plain transpose (bilinear, no conjugation).
 """
 from __future__ import annotations
 
@@ -269,6 +278,14 @@ def typed():
     return _typed
 
 
+def measured(dense, op):
+    """Matrix of an operand for the SELECTION of cases (None if it cannot be applied: the cases using it report that)."""
+    try:
+        return dense(op)
+    except Exception:
+        return None
+
+
 def contains_inverse(op) -> bool:
     import reduce_check
 
@@ -443,6 +460,21 @@ CX: dict = {
     'cSum': {'k': 'expr', 'e': {'add': ['cE22', 'cS22']}},
     'cSumD': {'k': 'sumtree', 'ops': {'dict': {'a': 'cT2', 'b': ['cD2', 'cE22']}}},
 }
+
+
+def cx_names(e, acc=None):
+    """Names of the CX alphabet used in a description (containers, expressions)."""
+    acc = set() if acc is None else acc
+    if isinstance(e, str):
+        if e in CX:
+            acc.add(e)
+    elif isinstance(e, dict):
+        for v in e.values():
+            cx_names(v, acc)
+    elif isinstance(e, (list, tuple)):
+        for v in e:
+            cx_names(v, acc)
+    return acc
 
 
 def x64_context(dt):
@@ -750,6 +782,14 @@ class Check(PropertyCheck):
         'with denominator <= 4096 (exact for the integer/dyadic inputs used); tolerance 1e-4 on matrices and inner products',
         'transposes of expressions containing the iterative-solver InverseOperator are outside the property (guard `no_inverse`): '
         'only the skeleton and structures of their `.T` are compared',
+        'implementation-side oracle only (no model counterpart; reference: NumPy transposition of the matrix measured through mv on '
+        'basis vectors, the bilinear identity sum((e x) * y) == sum(x * (e.T y)) on a Gaussian-integer probe, and jax.linear_transpose '
+        'of the same operator): (a) the dtype stream - complex64, and under jax.enable_x64 complex128 / float64, parameters and '
+        'structures (the Coq model is over the rationals); (b) expressions containing a user-defined class decorated @symmetric '
+        '(Model/Op.v has one user class, CAtom, whose transpose is the lazy wrapper).  Operators with complex parameters on REAL input '
+        'structures are not generated: their transpose is declared on complex structures (dtype promotion), so the structures are '
+        'not exactly swapped; complex band values with the FFT-based Toeplitz methods are not generated either (the real FFT drops '
+        'the imaginary part already in mv: not a statement about .T)',
     ]
 
     # -- cases ---------------------------------------------------------------------------------
@@ -839,12 +879,14 @@ class Check(PropertyCheck):
         import lineax as lx
 
         sym = [n for n in names if lx.is_symmetric(e[n])]
-        mats = {n: A.dense(e[n]) for n in sym}
+        mats = {n: measured(A.dense, e[n]) for n in sym}
         sym_by_type: dict = {}
         for n in sym:
             sym_by_type.setdefault(t[n], []).append(n)
 
         def commute(a, b):
+            if mats[a] is None or mats[b] is None:
+                return False
             return np.array_equal(mats[a] @ mats[b], mats[b] @ mats[a])
 
         nc2, c2 = [], []
@@ -857,6 +899,8 @@ class Check(PropertyCheck):
             for a in group:
                 for b in group:
                     for c in group:
+                        if any(mats[x] is None for x in (a, b, c)):
+                            continue
                         m = mats[a] @ mats[b] @ mats[c]
                         if not np.array_equal(m, m.T):
                             nc3.append([a, b, c])
@@ -869,9 +913,9 @@ class Check(PropertyCheck):
             rest = CONTEXTS[1:]
             for ctx in (CONTEXTS if not quick else ['comp'] + [rest[(3 * i + d) % len(rest)] for d in range(3)]):
                 add(ch, ctx)
-        for ch in c2[: 40 if quick else len(c2)]:
+        for ch in c2[: 30 if quick else len(c2)]:
             add(ch, 'comp')
-        for i, ch in enumerate(nc3[: 60 if quick else 400]):
+        for i, ch in enumerate(nc3[: 45 if quick else 400]):
             add(ch, 'comp')
             add(ch, CONTEXTS[1 + (i % (len(CONTEXTS) - 1))])
         square_ns = [n for n in names if t[n][0] == t[n][1] and n not in sym]
@@ -883,12 +927,17 @@ class Check(PropertyCheck):
         for n in names:
             if n not in sym:
                 nonsym_by_type.setdefault(t[n], []).append(n)
+        # (2') palindromic chains X @ Y @ X (their operand list read backwards is the same list)
+        pal = [[n, p, n] for n in square_ns for p in nonsym_by_type.get(t[n], []) + sym_by_type.get(t[n], []) if p != n]
+        rng.shuffle(pal)
+        for ch in pal[: 30 if quick else 300]:
+            add(ch, 'comp')
         mixed_ctx = ('sum', 'sumdict', 'blockdiag-nested', 'blockcol-dict', 'blockrow-tuple')
         k = 0
         for n in sym:
             partners = list(nonsym_by_type.get(t[n], []))
             rng.shuffle(partners)
-            for p in partners[: 2 if quick else 6]:
+            for p in partners[: 1 if quick else 6]:
                 for a, b in ((n, p), (p, n)):
                     for ctx in ([mixed_ctx[k % len(mixed_ctx)]] if quick else mixed_ctx):
                         add([a], ctx, [b])
@@ -901,7 +950,7 @@ class Check(PropertyCheck):
         every non-commuting all-symmetric pair in every context; complex64 in full, complex128 / float64 (x64) sampled."""
         import lineax as lx
 
-        budget = {'complex64': (100, 30), 'complex128': (30, 10), 'float64': (20, 6)} if quick else {d: (10**6, 300) for d in DTS}
+        budget = {'complex64': (80, 20), 'complex128': (25, 8), 'float64': (15, 5)} if quick else {'complex64': (10**6, 300), 'complex128': (300, 100), 'float64': (200, 60)}
         bad = {}
         nc2 = None
         for dt in DTS:
@@ -935,21 +984,23 @@ class Check(PropertyCheck):
             rng.shuffle(triples)
             if nc2 is None:  # measured once (complex64); a pair that commutes for another dtype only adds a case
                 sym = [n for n in names if lx.is_symmetric(ev[n])]
-                mats = {n: cdense(ev[n]) for n in sym}
-                nc2 = [[a, b] for a in sym for b in sym if t[a] == t[b] and not np.array_equal(mats[a] @ mats[b], mats[b] @ mats[a])]
+                mats = {n: measured(cdense, ev[n]) for n in sym}
+                nc2 = [[a, b] for a in sym for b in sym if t[a] == t[b]
+                       and (mats[a] is None or mats[b] is None or not np.array_equal(mats[a] @ mats[b], mats[b] @ mats[a]))]
             self.stats.setdefault('dtype_stream', {})[dt] = {
                 'operands': len(names), 'pairs': len(pairs), 'triples': len(triples), 'all_symmetric_noncommuting_pairs': len(nc2),
             }
             n2, n3 = budget[dt]
             for i, ch in enumerate(pairs[:n2]):
-                add(ch, 'comp')
+                if not quick or dt == 'complex64':
+                    add(ch, 'comp')
                 add(ch, CONTEXTS[1 + (i % (len(CONTEXTS) - 1))])
             for i, ch in enumerate(triples[:n3]):
                 add(ch, CONTEXTS[i % len(CONTEXTS)])
             for i, ch in enumerate(nc2):
                 rest = CONTEXTS[1:]
-                full = not quick or dt == 'complex64'
-                for ctx in (CONTEXTS if full else ['comp', rest[i % len(rest)]]):
+                some = ['comp'] + [rest[(4 * i + d) % len(rest)] for d in range(4 if dt == 'complex64' else 1)]
+                for ctx in (CONTEXTS if not quick else some):
                     add(ch, ctx)
             ctxs = [c for c in CONTEXTS if c not in ('comp', 'matmul', 'nested')]
             for i, n in enumerate(names):
@@ -970,6 +1021,11 @@ class Check(PropertyCheck):
         bad = self.stats.get('unbuildable_operands') or {}
         if bad:
             raise RuntimeError(f'operands of the alphabet cannot be constructed on this tree: {bad}')
+        # the generators must keep producing the inputs on which a shortcut of transpose() is wrong
+        a = self.stats.get('all_symmetric_chains') or {}
+        d = (self.stats.get('dtype_stream') or {}).get('complex64') or {}
+        if a.get('len2_noncommuting', 0) < 20 or a.get('len3_not_symmetric', 0) < 45 or d.get('all_symmetric_noncommuting_pairs', 0) < 8:
+            raise RuntimeError(f'the alphabet lost its non-commuting all-symmetric chains: {a} {d}')
         return {}
 
     def distribution(self, cases):
@@ -988,7 +1044,14 @@ class Check(PropertyCheck):
             'diagonal family, batched Toeplitz, Toast observation matrix, explicit lazy transposes of primitives and composites, '
             'block operators over list/tuple/dict/nested containers, sums over containers), type-compatible chains of length 2 '
             '(all in thorough, 260 in quick) and 3 (sampled), each placed in composition / @ / nested composition / sum / block row, column, '
-            'diagonal over several containers / under an explicit lazy TransposeOperator.  Non-trivial: e.T is not the default lazy wrapper.'
+            'diagonal over several containers / under an explicit lazy TransposeOperator.  Plus (both tiers): every non-commuting '
+            'chain of 2 (sampled: 3) operands that are ALL tagged symmetric (Toeplitz K>=2, diagonals with distinct entries, user '
+            '@symmetric non-diagonal classes, HWP) in several/all contexts, X@X for every square untagged operand, palindromes X@Y@X, '
+            'sums and blocks mixing tagged-symmetric and other operands; and a dtype stream (implementation-side oracle only) of 56 '
+            'operands with complex64 / complex128 / float64 (x64) parameters and structures (einsum blocks incl. pytrees of blocks, '
+            'diagonal and broadcast-diagonal values, scalars, Toeplitz bands, user matrices, index/axes/polarimetry operators on '
+            'complex inputs), their chains and containers, compared as the PLAIN transpose on Gaussian-integer values.  '
+            'Non-trivial: e.T is not the default lazy wrapper.'
         )
 
     # -- implementation ----------------------------------------------------------------------------
@@ -1116,9 +1179,13 @@ class Check(PropertyCheck):
             return case
         names = []
         if case['kind'] == 'dtype':
-            for n in dict.fromkeys(list(case['ops']) + list(case.get('ops2') or [])):
-                if case['ctx'] == 'operand':
-                    break
+            parts = list(case['ops']) + list(case.get('ops2') or [])
+            if case['ctx'] == 'operand':
+                d = CX.get(case['ops'][0], {})
+                parts = sorted(cx_names(d.get('blocks') or d.get('ops') or d.get('of') or d.get('e') or []))
+            for n in dict.fromkeys(parts):
+                if [n] == case['ops']:
+                    continue
                 c = {'kind': 'dtype', 'dt': case['dt'], 'ops': [n], 'ctx': 'operand', 'seed': case['seed']}
                 try:
                     if self.oracle(c, lib.canon(self.run_impl(c))):
